@@ -9,6 +9,7 @@ case = {
   "client": [ ["msg", kind, [fragments latin-1], [[ctl…] per fragment]] | ["ping", p] | ["pong", p] | ["close", code|null]
               | ["flush"] | ["reply_close"] | ["eof"] | ["reset"] | ["fail_writes"] | ["sleep", seconds] ],
   "seg": ["one"] | ["bytes"] | ["cuts", [offsets into each flushed byte string]] | ["k", n, seed],
+  "before": n   (h1 only: n ordinary keep-alive GETs, each answered 200 by an http application, on the same connection ahead of the handshake),
 }
 Frames accumulate until "flush" (or a non-frame action); each flushed string is cut according to `seg`, every piece is
 one `read()` of the server."""
@@ -84,6 +85,40 @@ def run_session(case: dict) -> dict:
                 await io.send(p)
                 await absorb()
 
+        # ---- "before": n ordinary keep-alive requests on the same HTTP/1.1 connection ahead of the handshake (so that the
+        # upgrade is the (n+1)-th request of the connection: keep_alive_max_requests); parsed by a client parser of their own
+        before = int(case.get("before") or 0) if carrier == "h1" else 0
+        if before:
+            import h11
+            pre = h11.Connection(h11.CLIENT)
+            box["before"] = []
+            for i in range(before):
+                pre.send(h11.Request(method="GET", target=f"/pre{i}", headers=[("host", "x")]))
+                pre.send(h11.EndOfMessage())
+                await io.send(f"GET /pre{i} HTTP/1.1\r\nhost: x\r\n\r\n".encode())
+                cur = None
+                for _ in range(5):
+                    pre.receive_data(take())
+                    try:
+                        while True:
+                            ev = pre.next_event()
+                            if ev is h11.NEED_DATA or ev is h11.PAUSED or isinstance(ev, h11.ConnectionClosed):
+                                break
+                            if isinstance(ev, h11.Response):
+                                cur = {"status": ev.status_code, "headers": [[b2s(n), b2s(v)] for n, v in ev.headers], "complete": False}
+                            elif isinstance(ev, h11.EndOfMessage) and cur is not None:
+                                cur["complete"] = True
+                                break
+                    except h11.RemoteProtocolError as e:
+                        cur = {"status": None, "error": str(e), "complete": False}
+                        break
+                    if cur is not None and cur["complete"]:
+                        break
+                    await io.sleep(0.01)
+                box["before"].append(cur)
+                if cur is None or not cur.get("complete") or pre.our_state is not h11.DONE or pre.their_state is not h11.DONE:
+                    break
+                pre.start_next_cycle()
         # ---- opening handshake (always delivered in one read; C13 owns the segmentation of the HTTP part) ----
         if carrier == "h1":
             await io.send(ws.h1_request(headers, method=case.get("method", "GET"), version=case.get("version", "1.1")))
@@ -166,16 +201,20 @@ def run_session(case: dict) -> dict:
         if carrier == "h1" and ws.conn is None:
             ws.feed_h1(b"", True)
         # the runners execute a session in a forked child: what the client saw travels back as the coroutine's result
-        return {"client": ws.summary(), "accepted": box.get("accepted"), "wire": box["wire"], "reads": box["reads"],
+        return {"client": ws.summary(), "accepted": box.get("accepted"), "wire": box["wire"], "reads": box["reads"], "before": box.get("before"),
                 "h2_error": (h2c.error if h2c is not None else None), "h2_goaway": (h2c.goaway if h2c is not None else None),
                 "h2_send_error": box.get("h2_send_error"), "unsent_after_server_close": box.get("unsent_after_server_close", False)}
 
-    res = R.RUNNERS[case["worker"]](dict(case.get("cfg") or {}), "h2" if carrier == "h2" else None, client, [case["app"]], tail=case.get("tail", 5))
+    scripts = [case["app"]]
+    if case.get("before") and carrier == "h1":
+        ok = [["send", {"type": "http.response.start", "status": 200, "headers": [(b"content-length", b"2")]}], ["send", {"type": "http.response.body", "body": b"ok"}]]
+        scripts = [ok] * int(case["before"]) + [case["app"]]
+    res = R.RUNNERS[case["worker"]](dict(case.get("cfg") or {}), "h2" if carrier == "h2" else None, client, scripts, tail=case.get("tail", 5))
     cr = res.get("client_result") or {"client": ws.summary(), "accepted": None, "wire": [], "reads": 0, "h2_error": None, "h2_goaway": None,
                                        "h2_send_error": None}
     apps = res["apps"]
     return {
-        "client": cr["client"], "accepted": cr["accepted"], "wire": cr["wire"], "reads": cr["reads"],
+        "client": cr["client"], "accepted": cr["accepted"], "wire": cr["wire"], "reads": cr["reads"], "before": cr.get("before"),
         "apps": [{"scope_type": a["scope"].get("type"), "recv": [r[1:] for r in a["recv"]], "send": [s[1:] for s in a["send"]], "exit": a["exit"],
                   "subprotocols": a["scope"].get("subprotocols"), "http_version": a["scope"].get("http_version")} for a in apps],
         "error": res["error"], "loop_errors": res["loop_errors"], "exceptions": res["exceptions"], "client_error": res["client_error"],
